@@ -910,6 +910,11 @@ def _evaluate(eng, fns):
 _RESULTS = {}
 
 
+def nows(key):
+    """Instance keys carry no white space (known_findings.txt keys are single tokens)."""
+    return re.sub(r"\s+", "", key)
+
+
 class Emit:
     """Collects instances by key; a violating evaluation of a key dominates a holding one (the same
     source expression is evaluated once per template instantiation)."""
@@ -918,6 +923,7 @@ class Emit:
         self.ctx, self.rule, self.items = ctx, rule, {}
 
     def add(self, key, ok, where="", fn="", msg="", detail=None):
+        key = nows(key)
         old = self.items.get(key)
         if old is None or (old[0] and not ok):
             self.items[key] = (ok, where, fn, msg, detail)
@@ -1504,7 +1510,7 @@ def run_ysign(ctx, rule="R-YSIGN"):
                 restored_in[fn.key] = restored_in.get(fn.key, 0) + 1
             ok = st == "R"
             why = ""
-            fkey = "%s:%s" % (sig, c.tctx.fingerprint(n))
+            fkey = nows("%s:%s" % (sig, c.tctx.fingerprint(n)))
             if not ok and fkey in exempt:
                 ok = True
                 why = "internal-system output: " + exempt[fkey]
@@ -1548,7 +1554,7 @@ def run_ysign(ctx, rule="R-YSIGN"):
         if not any(r.values()):
             continue
         for t, f in sorted(d.items()):
-            key = "%s:sibling-restores-sign" % stable_sig(fx, f)
+            key = nows("%s:sibling-restores-sign" % stable_sig(fx, f))
             if seen.get(key) is not None:
                 continue
             seen[key] = r[t] > 0
@@ -1574,7 +1580,7 @@ def run_ysign(ctx, rule="R-YSIGN"):
         ty = tested & eng.y_types
         if not ty or (tested & (kinds - eng.y_types)):
             continue                     # no y kind tested, or all coordinate kinds treated alike
-        key = "%s:type-tests-Y-and-Ydiff" % stable_sig(fx, fn)
+        key = nows("%s:type-tests-Y-and-Ydiff" % stable_sig(fx, fn))
         if key in seen:
             continue
         seen[key] = True
